@@ -13,6 +13,9 @@ use core::marker::PhantomData;
 use core::cmp::max;
 use core::mem;
 use core::cmp;
+use core::iter;
+use core::ops::Range;
+use core::slice;
 use vstd::std_specs::cmp::{PartialEqSpecImpl, PartialEqSpec};
 use vstd::std_specs::iter::IteratorSpec;
 use vstd::iset::ISet;
